@@ -328,7 +328,10 @@ Definition format_spec (v : value) (spec : bytes) : bytes :=
     let bin := render_base false 2 (u64 (value_int v)) in
     if zero && (0 <? w)%nat then ipad true w bin else bin
   else match v with
-       | VInt z => ipad zero w (dec z)           (* fill goes in front of the sign: finding #27 *)
+       | VInt z =>
+           (* setfill('0') << std::internal << setw(w): the fill goes between sign and digits
+              (fix 4cd822e, former finding #27); without the 0 flag: right-aligned with spaces *)
+           if zero then pad_num false true w (sign_of z) (mag_of z) else ipad false w (dec z)
        | VStr s => s
        end.
 
